@@ -1435,6 +1435,8 @@ func c08WholeRuns(ctx *Ctx, res *Result, doc []c08Opt, rng *Rng) {
 	c08Floor(res, "run.pair.with-diagnostics", npairs/3)
 	c08Floor(res, "run.presentation.with-diagnostics", npres/2)
 	c08Floor(res, "run.only.proper-nonempty-subset", 3)
+	// diagnostics in files reached through includes from other directories, targets spelled in many ways
+	c08CheckPaths(ctx, res, dir, -1)
 }
 
 func replayC08(ctx *Ctx, rep map[string]any) *Result {
@@ -1483,6 +1485,12 @@ func replayC08(ctx *Ctx, rep map[string]any) *Result {
 		c08CheckPresentation(ctx, res, dir, variant, c08UnhexArgv(rep["base"]), c08UnhexArgv(rep["pres"]))
 	case "runonly":
 		c08CheckOnly(ctx, res, dir, variant, c08UnhexArgv(rep["base"]), c08UnhexArgv(rep["only"]))
+	case "runpaths":
+		id := -1
+		if v, ok := rep["id"].(float64); ok {
+			id = int(v)
+		}
+		c08CheckPaths(ctx, res, dir, id)
 	case "audit":
 		c08CheckAudit(ctx, res)
 	case "logger", "logger-pres", "logger-only":
